@@ -1175,6 +1175,10 @@ maxterms, or set zeroprec."""
             else:
                 raise TypeError("requires an mpf/mpc")
         sign, man, exp, bc = re
+        if not man and re != fzero:
+            # inf, -inf, nan: the special tuples have exp+bc < 0 and would
+            # otherwise be taken for numbers of tiny magnitude below
+            raise ValueError("requires a finite number")
         mag = exp+bc
         # |x| < 0.5
         if mag < 0:
